@@ -27,9 +27,12 @@ def make_case(rng, small=False):
     dx = [rng.choice([1.0, 0.5, 0.39, 2.5]) for _ in range(dim)]
     lo = [rng.choice([0.0, -3.0, 1.25]) for _ in range(dim)]
     grid = CartesianGrid([[a, a + n * d] for a, n, d in zip(lo, shape, dx)], shape, periodic=True)
-    kind = rng.choice(["noise", "noise+mean", "wave", "blob"])
+    kind = rng.choice(["noise", "noise+mean", "wave", "blob", "weak-on-mean"])
     n = int(np.prod(shape))
-    if kind == "noise":
+    if kind == "weak-on-mean":
+        # fluctuations far smaller than the mean (dyadic amplitudes, so that sums of squares stay well conditioned enough to compare)
+        data = rng.choice([50.0, 2.0, -7.0]) + rng.choice([2.0**-7, 2.0**-10, 2.0**-4]) * np.array([rng.uniform(-1, 1) for _ in range(n)])
+    elif kind == "noise":
         data = np.array([rng.uniform(-1, 1) for _ in range(n)])
     elif kind == "noise+mean":
         data = np.array([rng.uniform(0, 1) for _ in range(n)]) + rng.choice([0.5, 3.0])
@@ -88,7 +91,7 @@ def run_cases(ck: Check, n_small: int, n_large: int):
         # non-negative, Parseval
         if s.min() < -1e-15:
             ck.fail(f"negative structure factor {s.min()}", {**sig, "check": "sf_nonneg"}, case)
-        want = 1 - n * data.mean() ** 2 / np.sum(data**2)
+        want = float(np.sum((data - data.mean()) ** 2) / np.sum(data**2))  # = 1 - N mean^2 / sum f^2, without the cancellation
         if not rel_close(float(s.sum()), float(want), 1e-9, 1e-11):
             ck.fail(f"sum of the structure factor {s.sum()} != 1 - N mean^2 / sum f^2 = {want}", {**sig, "check": "sf_sum"}, case)
         # wave numbers = 2 pi fftfreq magnitudes
